@@ -10,6 +10,10 @@
     stop setting and random oracle.
   * `C19_cap_is_prefix`: with a binding cap the result is the prefix of the uncapped result.
   * `C19_time_never_backwards`: the event `pick_next` returns is never before the clock.
+  * `C19_no_bug_no_internal`, `C19_no_bug_no_action`, `C19_no_divergence`: the `BUG:` assertions
+    of `do_internal_timer` / `do_scheduled_action` cannot fire and the aggregate-delay recursion
+    cannot loop (the remaining two assertions, "cancel / update timer in scheduled action", need
+    the slot-content invariant and are covered by the correspondence and the panic monitor only).
   * `C19_function_of_inputs`: the run is a function of (machines, queue, args, oracle) and, when
     an iteration cap is set, does not depend on the model's own iteration budget.
   * `C19_pickNext_fuel`: `pick_next`'s recursion always terminates within `pickMeasure + 1` calls.
@@ -19,6 +23,7 @@
 import MbVerif.Proofs.SimRecord
 import MbVerif.Proofs.SimCap
 import MbVerif.Proofs.SimFuel
+import MbVerif.Proofs.SimBugFree
 import MbVerif.Spec.C19
 
 namespace Mb.C19
@@ -100,6 +105,21 @@ theorem C19_cap_is_prefix (budget : Nat) (mc ms : List Machine) (sq : SimQueue) 
 theorem C19_time_never_backwards (fuel : Nat) (st st' : St σ) (e : SimEvent)
     (h : pickNext fuel st = some (.ok (some e, st'))) : st.now ≤ e.time :=
   pickNext_time_ge fuel st st' e h
+
+/-- **"BUG: no internal action found" cannot fire.** -/
+theorem C19_no_bug_no_internal (st : St σ) (i : Nat) (h : pickDecide st = .ok (.timer i)) :
+    doInternalTimer st (st.now + i) ≠ .error .noInternal :=
+  doInternalTimer_found h
+
+/-- **"BUG: no action found" cannot fire.** -/
+theorem C19_no_bug_no_action (st : St σ) (s : Nat) (h : pickDecide st = .ok (.action s)) :
+    doScheduledAction st (st.now + s) ≠ .error .noAction :=
+  doScheduledAction_found h
+
+/-- **`pick_next` cannot recurse forever on the aggregate-delay branch**: that branch is only
+    chosen when a delay is pending, and popping it shrinks the termination measure. -/
+theorem C19_no_divergence (st : St σ) (h : pickDecide st = .ok .agg) : pickAgg st ≠ .error .diverge :=
+  pickAgg_no_diverge h
 
 /-- **Function of the inputs.**  With an iteration cap the result does not depend on the model's
     own loop budget: the run is determined by machines, queue, arguments and the oracle alone. -/
